@@ -31,8 +31,10 @@ def main(tier, seed):
                                       meta=dict(it.meta, family=it.meta['family'] + ':ladder', allow_exhausted=True, ladder=(it.key, s))))
     # (c) word ladder: the same text at W = 2 and at wider words
     words = []
-    wsel = [3] if quick else [3, 4, 8]
-    wbase = families.generated(seed + 9, 30 if quick else 300, inputs=2, family='gen9', feat={'faults': 0.05})
+    wsel = [3, 8] if quick else [3, 4, 8]
+    wbase = families.generated(seed + 9, 22 if quick else 300, inputs=2, family='gen9', feat={'faults': 0.05})
+    from hv import fam_seq
+    wbase += [it for it in fam_seq.layout(seed, 'quick') if it.w == 2] + [it for it in fam_seq.misc(seed, 'quick') if it.w == 2]
     for it in wbase:
         words.append(it)
         for w in wsel:
